@@ -185,10 +185,14 @@ pub fn compare_archives<P: AsRef<Path>>(
         different_files: files.size_differences.len()
             + files.content_differences.len()
             + files.metadata_differences.len(),
-        identical_files: files.common_files.len()
-            - files.size_differences.len()
-            - files.content_differences.len()
-            - files.metadata_differences.len(),
+        // one file can appear in several difference lists, so the sum may exceed the
+        // number of common files
+        identical_files: files
+            .common_files
+            .len()
+            .saturating_sub(files.size_differences.len())
+            .saturating_sub(files.content_differences.len())
+            .saturating_sub(files.metadata_differences.len()),
     };
 
     // Determine if archives are identical
